@@ -120,20 +120,25 @@ def build(repo):
     g = Gen('u_curves')
     g.add(preamble.read('exact.rs')); g.add(preamble.fx('Fx', 'f32'))
     src = RustSrc(os.path.join(repo, REL))
+    # every top-level f32 constant of the file is extracted: the 13 the curve formulas name (CONSTS, required) and any other one
+    # a refactoring may have introduced (seed I: REC709_LINEAR_END), each as an exec fn with its literal-exact value as generated spec
+    found = re.findall(r'(?m)^const (\w+): f32 =', src.text if hasattr(src, 'text') else open(os.path.join(repo, REL)).read())
+    ALLC = list(CONSTS) + [n for n in found if n not in CONSTS]
     def fxify(t):
         t = t.replace('f32::EPSILON', '0.00000011920929f32')      # 2^-23, the value of f32::EPSILON
         t = re.sub(r'\(0\.0\.\.=1\.0\)\.contains\(&(\w+)\)', r'(0.0 <= \1 && \1 <= 1.0)', t)
         if '.contains(' in t: raise AnchorLost('unknown range test in a curve function')
         t = re.sub(r'\bf32\b', 'Fx', t)
-        for n in CONSTS:
+        for n in ALLC:
             t = re.sub(r'\b%s\b(?!\s*[:(])' % n, n + '()', t)
         return preamble.lit_rewrite(t)
-    for n in CONSTS:
+    for n in ALLC:
         txt = src.get(src.find('const', n))
         m = re.match(r'const (\w+): f32 = (.*);\s*$', txt, re.S)
         if not m: raise AnchorLost(f'const {n} changed shape')
         body = fxify(m.group(2))
         spec = re.sub(r'Fx::lit\((\d+), (\d+)\)', dec_lit, body)
+        spec = re.sub(r'\b(%s)\(\)' % '|'.join(ALLC), r's_\1()', spec)     # a constant defined from another constant
         g.add(f'pub open spec fn s_{n}() -> real {{ {spec} }}\nfn {n}() -> (r: Fx) ensures r.val() == s_{n}() {{ {body} }}\n')
         g.under_contract.append({'fn': f'const {n}', 'src': f'{REL}:{src.line_of(src.find("const", n)[0])}', 'requires': [], 'ensures': ['value of the literal read exactly']})
     g.add(SPEC)
